@@ -286,7 +286,10 @@ def gen_records(rng, i):
                 v = rng.randint(1, iters)
                 levels.append({'single': False, 'prob': v / iters,
                                'corr': rng.uniform(-1, 1),
-                               'n_runners': rng.randint(0, 2)})
+                               'n_runners': rng.randint(0, 2),
+                               # a runner-up that got votes with an average
+                               # correlation of exactly 0.0
+                               'runner_corr': rng.choice([0.0, 0.25, -0.5])})
         cells.append(levels)
     return {'kind': 'records', 'depth': depth, 'cells': cells}
 
@@ -359,7 +362,8 @@ def check_records(ctx, case):
             else:
                 p.append(lv['prob'])
                 c.append(lv['corr'])
-                r.append([('n%d_%d_alt' % (ci, k), True, 0.25, 0.125)]
+                r.append([('n%d_%d_alt' % (ci, k), True,
+                           lv.get('runner_corr', 0.25), 0.125)]
                          * min(1, lv['n_runners']))
         return np.array(a), np.array(p), np.array(c), r
 
@@ -411,6 +415,23 @@ def check_records(ctx, case):
                     return
             else:
                 want = c
+                n_r = min(1, levels[k].get('n_runners', 0))
+                if not levels[k]['single'] and (
+                        r['runner_up_assignment'] !=
+                        ['n%d_%d_alt' % (ci, k)] * n_r or
+                        r['runner_up_probability'] != [0.125] * n_r or
+                        r['runner_up_correlation'] !=
+                        [levels[k].get('runner_corr', 0.25)] * n_r):
+                    violation('runner-dropped', 'cell %d level %d: the vote '
+                              'returned %d runner-up tuple(s) with votes '
+                              '(correlation %r), the record lists %r / %r / %r'
+                              % (ci, k, n_r,
+                                 levels[k].get('runner_corr', 0.25),
+                                 r['runner_up_assignment'],
+                                 r['runner_up_correlation'],
+                                 r['runner_up_probability']), cell=ci,
+                              result=rec)
+                    return
             if r['avg_correlation'] != want:
                 violation('single-child-corr' if c is None else 'corr-kept',
                           'cell %d level %d: avg_correlation %r, expected '
